@@ -203,6 +203,13 @@ theorem runs_total (c : Cfg) (retries : Int) (op : Nat → Outcome) (ctx : Ctx) 
     | ok hc hev hop => exact ⟨by simp, Or.inl (by simp [hop]), nostop' hc hev⟩
     | fatal hc hev hop => exact ⟨by simp, Or.inl (by simp [hop]), nostop' hc hev⟩
 
+-- non-vacuity: a run that satisfies the hypotheses (live context, enough fuel) and stops by its count
+example : (run ⟨1, 0, 2, true⟩ 3 (fun _ => .retry) ⟨none, fun _ => .pass⟩ (fun _ => 0) 3).exhausted = false ∧
+    (run ⟨1, 0, 2, true⟩ 3 (fun _ => .retry) ⟨none, fun _ => .pass⟩ (fun _ => 0) 3).calls = 3 := by decide
+-- … and one under `Forever` that stops because the operation succeeds at its 5th run
+example : (run ⟨1, 0, 2, true⟩ forever (fun k => if k = 5 then .ok else .retry) ⟨none, fun _ => .pass⟩ (fun _ => 0) 9).exhausted = false ∧
+    (run ⟨1, 0, 2, true⟩ forever (fun k => if k = 5 then .ok else .retry) ⟨none, fun _ => .pass⟩ (fun _ => 0) 9).calls = 5 := by decide
+
 /-- the model's fuel never limits a run that the real loop would finish: a configured limit, or any call that does
 not fail recoverably / any interrupted wait within reach, suffices -/
 theorem terminates (c : Cfg) (retries : Int) (op : Nat → Outcome) (ctx : Ctx) (rnd : Nat → Int) (fuel : Nat)
